@@ -24,7 +24,7 @@ G_GROUPS = {
     # three free operations: 8.8 M states after 25 min of exhaustive search (measured), hence seeded TLC simulation (thorough tier only)
     "fmt4": ("MC_YataFmt", "G_fmt4.cfg", {"filter": "fmt", "sample": {"quick": 1500, "thorough": 40000}, "simulate": {"quick": 400, "thorough": 6000}}),
 }
-RICH_FAMILIES = ["fmtdup", "fmtovl", "fmtdel", "fmtovw", "fmthole"]
+RICH_FAMILIES = ["fmtdup", "fmtovl", "fmtdel", "fmtovw", "fmtins", "fmthole"]
 D_GROUPS = {
     "d_seq": ("MC_Yata", "D_seq.cfg"),
     "d_map": ("MC_Yata", "D_map.cfg"),
@@ -62,8 +62,8 @@ def make_schedules(hists, gname, seed, authors=(1, 2)):
     for idx, h in enumerate(hists):
         bid = "%s-%06d" % (gname, idx)
         rnd = random.Random(_h(seed, bid))
-        auth = tuple(sorted({s["r"] for s in h if s["a"] in ("ins", "del", "set", "rem", "fmt")} | set(authors)))
-        nupd = sum(1 for s in h if s["a"] in ("ins", "del", "set", "rem", "fmt"))
+        auth = tuple(sorted({s["r"] for s in h if s["a"] in ("ins", "del", "set", "rem", "fmt", "insa")} | set(authors)))
+        nupd = sum(1 for s in h if s["a"] in ("ins", "del", "set", "rem", "fmt", "insa"))
         steps = list(h)
         if gname.startswith("alg") and nupd >= 3 and idx % 2 == 1:
             # observer 9 receives everything as ONE nested merge: groups with duplicated heads, gaps and fillers in a seeded order
@@ -333,7 +333,7 @@ def rich_stats(scheds, tfile):
     st = {"behaviours": len(scheds), "with_format_steps": 0, "format_steps": 0, "with_cleanup_replica": 0, "cleanup_on_replicas": 0,
           "replicas": 0, "cleanup_events": 0, "marks_cleaned": 0, "behaviours_with_cleanup": 0, "inexecutable": 0}
     for s in scheds:
-        nf = sum(1 for x in s["steps"] if x.get("a") == "fmt")
+        nf = sum(1 for x in s["steps"] if x.get("a") in ("fmt", "insa"))
         st["format_steps"] += nf
         st["with_format_steps"] += 1 if nf else 0
         on = sum(1 for r in s["cfg"]["replicas"] if r.get("cf"))
@@ -537,7 +537,7 @@ def add_rich_evidence(ev, rr):
     ev.cov["rich"]["groups"] = [{k: g[k] for k in ("group", "replay", "used")} for g in rr["gstats"]]
     ev.cov["rich"]["drift_behaviours"] = {k: len(v) for k, v in sorted(dk.items())}
     ev.cov["rich"]["rule"] = ("formatting behaviours = TLC-enumerated histories with format steps (free group fmt3: all ins/del/format operations "
-                              "on a two-unit text by two authors; scripted families fmtdup/fmtovl/fmtdel/fmtovw/fmthole: every exchange among "
+                              "on a two-unit text by two authors; scripted families fmtdup/fmtovl/fmtdel/fmtovw/fmtins/fmthole: every exchange among "
                               "the authors and every (merged) delivery order) plus seeded random rich-text runs; cleanup_formatting is drawn per "
                               "replica; cleanup_events = deliveries/syncs whose transaction deleted marks no delivered deletion named")
 
